@@ -12,6 +12,12 @@
 (*                  trainer, scorer, guesser (-1 = cannot be generated)    *)
 (*  kind "keyspace" T.rows[i] = [level, saved keyspace, generator count,   *)
 (*                  numeric flag for the saved probability]                *)
+(*  kind "tables"   the trainer's in-memory n-gram tables against the      *)
+(*                  tallies of the passwords its second pass saw:          *)
+(*                  T.pws (ids), T.alpha (alphabet ids), T.n, T.maxlen,    *)
+(*                  T.ipc / T.epc = Seq(<<(n-1)-gram, count>>),            *)
+(*                  T.cpc = Seq(<<n-gram, count>>), T.lnc = counts by      *)
+(*                  length (index = length)                                *)
 (*  kind "resume"   T.full = uninterrupted sequence, T.j = cut,            *)
 (*                  T.rest = what the resumed generator emitted            *)
 (***************************************************************************)
@@ -29,12 +35,22 @@ Mod == [n |-> T.m.n, ln |-> T.m.ln, ip |-> FnOf(T.m.ip), cp |-> FnOf(T.m.cp)]
 ToSet(s) == { s[i] : i \in DOMAIN s }
 Lv(x) == IF x = NoLevel THEN -1 ELSE x
 
-NClauses == CASE T.kind = "level" -> 4 [] T.kind = "agree" -> 4 [] T.kind = "keyspace" -> 3
+(* ---- n-gram tallies (AlphabetLookup.parse) ---- *)
+ValidPw(i) == Len(T.pws[i]) >= T.n /\ Len(T.pws[i]) <= T.maxlen
+InAlpha(sq) == \A k \in DOMAIN sq : \E a \in DOMAIN T.alpha : T.alpha[a] = sq[k]
+Valid == { i \in DOMAIN T.pws : ValidPw(i) }
+IpTally(k) == Cardinality({ i \in Valid : SubSeq(T.pws[i], 1, T.n - 1) = k })
+EpTally(k) == Cardinality({ i \in Valid : SubSeq(T.pws[i], Len(T.pws[i]) - T.n + 2, Len(T.pws[i])) = k })
+CpTally(c) == Cardinality({ <<i, p>> \in Valid \X (1..T.maxlen) : p + T.n - 1 <= Len(T.pws[i]) /\ SubSeq(T.pws[i], p, p + T.n - 1) = c })
+LnTally(L) == Cardinality({ i \in Valid : Len(T.pws[i]) = L })
+Listed(tab, k) == \E r \in DOMAIN tab : tab[r][1] = k
+NClauses == CASE T.kind = "level" -> 4 [] T.kind = "tables" -> 4 [] T.kind = "agree" -> 4 [] T.kind = "keyspace" -> 3
               [] T.kind = "resume" -> 1 [] OTHER -> 1
 ClauseName(k) ==
   CASE T.kind = "level"    -> <<"C10_reports_exhaustion", "C10_each_string_once", "C10_only_strings_of_the_level", "C10_none_missing">>[k]
     [] T.kind = "agree"    -> <<"C11_trainer_level", "C11_scorer_level", "C11_guesser_level", "C11_passwords_per_level">>[k]
     [] T.kind = "keyspace" -> <<"C18_keyspace_is_level_size", "C18_generator_emits_that_many", "C18_saved_probability">>[k]
+    [] T.kind = "tables"   -> <<"C11_initial_ngram_counts_are_tallies", "C11_transition_counts_are_tallies", "C11_end_ngram_counts_are_tallies", "C11_length_counts_are_tallies">>[k]
     [] T.kind = "resume"   -> <<"C15_resumes_at_next_guess">>[k]
     [] OTHER               -> <<"C10_generator_raised">>[k]
 ClauseHolds(k) ==
@@ -53,6 +69,13 @@ ClauseHolds(k) ==
     [] T.kind = "keyspace" /\ k = 1 -> LET M == Mod IN \A i \in DOMAIN T.rows : T.rows[i][2] = Keyspace(M, T.rows[i][1])
     [] T.kind = "keyspace" /\ k = 2 -> \A i \in DOMAIN T.rows : T.rows[i][3] = -1 \/ T.rows[i][3] = T.rows[i][2]
     [] T.kind = "keyspace" /\ k = 3 -> \A i \in DOMAIN T.rows : T.rows[i][4] = 1
+    [] T.kind = "tables" /\ k = 1 -> /\ \A r \in DOMAIN T.ipc : T.ipc[r][2] = IpTally(T.ipc[r][1])
+                                     /\ \A i \in Valid : InAlpha(SubSeq(T.pws[i], 1, T.n - 1)) => Listed(T.ipc, SubSeq(T.pws[i], 1, T.n - 1))
+    [] T.kind = "tables" /\ k = 2 -> /\ \A r \in DOMAIN T.cpc : T.cpc[r][2] = CpTally(T.cpc[r][1])
+                                     /\ \A i \in Valid : \A p \in 1..(Len(T.pws[i]) - T.n + 1) :
+                                           InAlpha(SubSeq(T.pws[i], p, p + T.n - 1)) => Listed(T.cpc, SubSeq(T.pws[i], p, p + T.n - 1))
+    [] T.kind = "tables" /\ k = 3 -> \A r \in DOMAIN T.epc : T.epc[r][2] = EpTally(T.epc[r][1])
+    [] T.kind = "tables" /\ k = 4 -> \A L \in DOMAIN T.lnc : T.lnc[L] = LnTally(L)
     [] T.kind = "resume" -> T.rest = SubSeq(T.full, T.j + 1, Len(T.full))
     [] OTHER -> FALSE
 
